@@ -80,6 +80,10 @@ def custom_parse(impl, v):
     """python-side reference of the sample scalars: ('value', x) | ('refused',) | ('raised',)"""
     if impl == "even":
         return ("value", v // 2) if _isint(v) and v % 2 == 0 else ("refused",)
+    if impl == "pos":                      # a scalar WITHOUT parse_literal: literals go through parse(node.value), i.e. the TEXT
+        if isinstance(v, str) and v != "" and all("0" <= c <= "9" for c in v):
+            v = int(v)
+        return ("value", v) if _isint(v) and v > 0 else ("refused",)
     if impl == "tagged":
         if isinstance(v, dict):
             return ("raised",)
@@ -91,6 +95,8 @@ def custom_accepts_kind(impl, v):
     """a value the scalar's own parser can have produced"""
     if impl == "even":
         return _isint(v)
+    if impl == "pos":
+        return _isint(v) and v > 0
     if impl == "tagged":
         return isinstance(v, dict) and list(v) == ["v"] and isinstance(v["v"], str)
     return True
@@ -104,6 +110,7 @@ def fixed_registry():
         {"name": "Any", "kind": "custom"},
         {"name": "Even", "kind": "custom", "impl": "even"},
         {"name": "Tag", "kind": "custom", "impl": "tagged"},
+        {"name": "Pos", "kind": "custom", "impl": "pos"},
         {"name": "E", "kind": "enum", "values": [["A", 10], ["B", "bee"], ["C", "C"], ["D", 1.5]]},
         {"name": "In1", "kind": "input", "fields": [
             {"name": "a", "py": "a_py", "type": N("Int"), "default": [5]},
@@ -233,6 +240,8 @@ def default_for(reg, t, rng, depth):
         impl = d.get("impl", "identity")
         if impl == "even":
             return rng.choice([0, 3, -8])
+        if impl == "pos":
+            return rng.choice([1, 42])
         if impl == "tagged":
             return {"v": "dflt"}
         return rng.choice(["any", 5, [1, "x"]])
@@ -584,7 +593,7 @@ def natural(reg, t, j):
         return isinstance(j, str) or isint
     if k == "custom":
         impl = d.get("impl", "identity")
-        if impl == "even":
+        if impl in ("even", "pos"):
             return isint
         if impl == "tagged":
             return isinstance(j, str)
@@ -675,6 +684,8 @@ def leaf_natural(reg, d, rng):
         impl = d.get("impl", "identity")
         if impl == "even":
             return [0, 2, -4, 7, 1000, MAX32 + 1]
+        if impl == "pos":
+            return [1, 5, 0, -3, 2 ** 40]
         if impl == "tagged":
             return ["x", "", "é"]
         return ["x", True, ""]
@@ -702,9 +713,11 @@ def leaf_wrong(reg, d):
         impl = d.get("impl", "identity")
         if impl == "even":
             return ["2", 2.0, True, [2], {}, 1.5]
+        if impl == "pos":
+            return ["7", "x", "", 1.5, True, [1], {"a": 1}, [[2]]]
         if impl == "tagged":
             return [1, True, {"a": 1}, ["x"], 1.5]
-        return [1, 1.5, [1, "a"], {"k": [True]}, {}, float("inf")]
+        return [1, 1.5, [1, "a"], {"k": [True]}, {}, float("inf"), ["a", None, {"x": "A", "y": [False]}], [[]], {"k": None}]
     if k == "enum":
         n0 = d["values"][0][0]
         return [1, True, 1.5, [n0, n0], {}, {n0: 1}, "not a name", "true"]
